@@ -109,8 +109,8 @@ PROPS = {
         exhaustive={"thorough": "all pairs of strings of length <= 4 over {a,b,space} (121 x 121) x with_swap x spaces_insert_delete_only x normalized, code-point mode"},
         trusted=UNICODE + ["f64 division is compared with the model's exact rational with relative tolerance 1e-12"],
         min_nontrivial={"quick": 500, "thorough": 5000},
-        claim="Theorems for all pairs of texts and all flag combinations: matrix_eq_rec (every cell of the flat matrix, filled with the code's candidate order and first-minimum tie-breaking, equals the recursive reference recurrence osaR), distance_le_script + distance_attained (the value is the minimum cost over all edit scripts: Levenshtein without swaps, optimal string alignment with, whitespace never substituted/transposed under spaces_insert_delete_only), distance_eq_zero_iff, normalized_range (<= longer length without sid; two empty strings give 0), normalized_range_sid_partial + sid_counterexample (F12), prefix_min. operations(): modelled with tie-breaking and backtrace, compared exactly with the implementation (script equality) and checked by the oracle (apply script = b, length = distance, sorted); the script theorem itself is not yet proved (partial).",
-        note="Backtrace/script correctness is covered by exact correspondence + oracle only (no theorem yet). Grapheme clusters come from the real CharString. f64 division compared against the exact rational with tolerance. F12 is an open known finding; D1 (NaN for two empty strings) was repaired by a fix: commit.",
+        claim="Theorems for all pairs of texts and all flag combinations: matrix_eq_rec (every cell of the flat matrix, filled with the code's candidate order and first-minimum tie-breaking, equals the recursive reference recurrence osaR), distance_le_script + distance_attained (the value is the minimum cost over all edit scripts: Levenshtein without swaps, optimal string alignment with, whitespace never substituted/transposed under spaces_insert_delete_only), distance_eq_zero_iff, normalized_range (<= longer length without sid; two empty strings give 0), normalized_range_sid_partial + sid_counterexample (F12), prefix_min. editOperations_ok (operations(): the backtrace never reaches its panic branch, the script has exactly `distance` operations, is sorted by position and applying it to a yields b), editOperations_minimal (no alignment script is shorter), editOperations_flags (no whitespace substituted / transposed under spaces_insert_delete_only, no swap without with_swap). The script itself is also compared exactly with the implementation (tie-breaking modelled).",
+        note="Grapheme clusters come from the real CharString. f64 division compared against the exact rational with tolerance. F12 is an open known finding; D1 (NaN for two empty strings) was repaired by a fix: commit.",
     ),
     "C16": dict(
         anchors=[("src/windows.rs", r"pub fn windows<"), ("src/windows.rs", r"pub fn char\("), ("src/windows.rs", r"pub fn byte\("), ("src/windows.rs", r"fn count_until\("), ("src/unicode.rs", r"pub\(crate\) fn char_range_to_byte_range\(")],
